@@ -7,6 +7,10 @@ try:
     mods = sorted(f for f in os.listdir(os.path.join(V, "spec")) if f.endswith(".tla"))
     for f in mods:
         shutil.copyfile(os.path.join(V, "spec", f), os.path.join(d, f))
+    # (modules with TLAPS proofs extend TLAPS.tla, which ships with the proof system, not with tla2tools)
+    tlaps = "/opt/veriftools/tlapm/lib/tlapm/stdlib/TLAPS.tla"
+    if os.path.exists(tlaps):
+        shutil.copyfile(tlaps, os.path.join(d, "TLAPS.tla"))
     bad = 0
     for f in mods:
         r = subprocess.run(["java", "-cp", "/opt/veriftools/tla/tla2tools.jar:/opt/veriftools/tla/CommunityModules-deps.jar", "tla2sany.SANY", f],
